@@ -39,20 +39,20 @@ def rule_R04_1(ctx):
             prod.add(x[0])
         # local view: walk constructor wrappers to the creating call sites
         creators = []
-        if f.module.startswith("eval::value"):
+        vm = anchors.value_module(prog)
+        cp = f.canon_op(aops[ci])
+        if f.module.startswith(vm) and cp[0][0] == "arg":
+            # a constructor of the value module: its call sites create functions
             for c in prog.callers_of(f.path):
-                creators.append(c)
-        r.inst("%s builds Func; creators: %s" % (f.path, [c.fn.path for c in creators]))
-        for c in creators:
+                creators.append((c.fn, c.args[cp[0][1] - 1], c.loc))
+        elif not f.module.startswith(vm):
+            # the Func is written out where the function value is created
+            creators.append((f, aops[ci], mir.span_loc(sp)))
+        else:
+            r.unproven.append("%s: Func.closure is not a plain parameter" % f.path)
+        r.inst("%s builds Func; creators: %s" % (f.path, [g_.path for g_, _, _ in creators]))
+        for g, arg, where_ in creators:
             n_callers += 1
-            g = c.fn
-            # the argument that becomes Func.closure
-            # map: constructor parameter feeding the closure field
-            cp = f.canon_op(aops[ci])
-            if cp[0][0] != "arg":
-                r.unproven.append("%s: Func.closure is not a plain parameter" % f.path)
-                continue
-            arg = c.args[cp[0][1] - 1]
             acp = g.canon_op(arg)
             ok = False
             why = str(acp)
@@ -74,7 +74,7 @@ def rule_R04_1(ctx):
                 r.fail("%s | captured-chain=%s" % (g.path, why[:60]),
                        "%s creates a function value whose closure is not a "
                        "clone of the evaluator's current scope chain (%s)"
-                       % (g.path, why), where=c.loc)
+                       % (g.path, why), where=where_)
     r.require_floor("function-value creation sites", n_callers, 2)
     return r
 
